@@ -26,6 +26,7 @@ def run(prog, chk):
         "the kern writers' mark filtering set only lists exported glyphs, and the IgnoreMarks / filtering-set decision is made on the members of that set (R13.7)",
         "an instance generated from a designspace ends up with the designspace's skip list: nothing rewrites the instance's lib after it is stored (R13.8)",
     ]
+    chk.decided += ["the decomposition helper hands the skip set (include) and decomposeNested to the pen exactly as the filters gave them: a skipped glyph nested in a skipped glyph is inlined too (R13.9 = R01.2 = R15.1)"]
     chk.not_decided += ["that the remaining glyphs render identically (decomposition arithmetic is fontTools')"]
     chk.guard(r131, prog, chk)
     chk.guard(r132, prog, chk)
@@ -36,6 +37,8 @@ def run(prog, chk):
     chk.guard(check_single_decomposer, prog, chk, "R13.6")
     chk.guard(r137, prog, chk)
     chk.guard(r138, prog, chk)
+    from . import c01
+    chk.guard(c01.r012, prog, chk, "R13.9")
 
 
 # ----------------------------------------------------------------------------- R13.1
@@ -629,6 +632,8 @@ def r138(prog, chk):
 
 
 MUTANTS = [
+    M("include narrowed to the direct references before it reaches the pen (seeded C13j)", "ufo2ft/util.py", "decomposeCompositeGlyph",
+      "if len(glyph.components) == 0:\n    return", "if len(glyph.components) == 0:\n    return\nif include is not None:\n    include = {c.baseGlyph for c in glyph.components if c.baseGlyph in include}", rule="R13.9"),
     M("default master's lib copied over the designspace's skip list (seeded C13g)", "ufo2ft/instantiator.py", "Instantiator.generate_instance",
       "font.lib['designspace.location'] = [loc for loc in location.items()]", "font.lib['designspace.location'] = [loc for loc in location.items()]\nfont.lib.update(copy.deepcopy(self.copy_lib))", rule="R13.8"),
     M("sparse-layer UFOs do not contribute to the skip list (seeded C13f)", "ufo2ft/_compilers/baseCompiler.py", "BaseCompiler.preprocess",
